@@ -20,7 +20,8 @@
 (***************************************************************************)
 EXTENDS MetaRaft, Json
 
-CONSTANTS GenLen, MaxLog, MaxPubs
+CONSTANTS GenLen, MaxLog, MaxPubs,
+          PreludeLen   \* 0..5: how much of the fixed prelude every node has applied before the behaviour starts
 VARIABLES hist, pubs
 
 gvars == <<vars, hist, pubs>>
@@ -36,8 +37,14 @@ Quiet == UNCHANGED <<pending, nextId, leader, crashes, clientVars>>
 MinApplied == IF UpNodes = {} THEN 0
               ELSE CHOOSE m \in {applied[n] : n \in UpNodes} : \A n \in UpNodes : applied[n] >= m
 
+\* Generation filter (not part of the model): no silent no-ops, and never two commands in a row that leave
+\* the value unchanged - otherwise most random commands are rejected ones on a nearly empty value.
+Effective(cmd) == ApplyCmd(folds[Len(folds)], cmd).d # folds[Len(folds)]
+LastChanged == IF Len(log) = 0 THEN TRUE ELSE folds[Len(folds)] # folds[Len(folds) - 1]
+
 GSubmit(cmd) ==
   /\ Len(log) < MaxLog /\ Len(log) <= MinApplied + 2
+  /\ IF Effective(cmd) THEN TRUE ELSE (LastChanged /\ ApplyCmd(folds[Len(folds)], cmd).err # "ok")
   /\ log' = Append(log, [id |-> Len(log) + 1, cmd |-> cmd, cl |-> None, ldr |-> None])
   /\ folds' = Append(folds, ApplyCmd(folds[Len(folds)], cmd).d)
   /\ Quiet /\ UNCHANGED <<nodeVars, snapVars, pubs>>
@@ -95,7 +102,29 @@ GInstall(n, m) ==
   /\ Quiet /\ UNCHANGED <<log, folds, up, snapHeld, base, nsnap, pubs>>
   /\ Log([a |-> "install", n |-> n, m |-> m])
 
-GInit == Init /\ hist = <<>> /\ pubs = <<>>
+\* A fixed prelude (applied on every node by the harness before step 1) so that the random part starts from a
+\* value with a database, two subscriptions and two data nodes: the in-place rewrites need something to rewrite.
+PreludeAll == <<[t |-> "CDB", db |-> "d1"], [t |-> "CDN", h |-> "a1", a |-> "a1"], [t |-> "CSUB", db |-> "d1", s |-> "s1"],
+                [t |-> "CSUB", db |-> "d1", s |-> "s2"], [t |-> "CDN", h |-> "a2", a |-> "a2"]>>
+Prelude == SubSeq(PreludeAll, 1, PreludeLen)
+Data0 == FoldCmds(Prelude, PreludeLen)
+Node0 == [up |-> TRUE, applied |-> PreludeLen, data |-> Data0, held |-> [index |-> -1], file |-> [index |-> -1]]
+
+GInit ==
+  /\ log = [i \in 1..PreludeLen |-> [id |-> i, cmd |-> Prelude[i], cl |-> None, ldr |-> None]]
+  /\ folds = [i \in 1..(PreludeLen + 1) |-> FoldCmds(Prelude, i - 1)]
+  /\ pending = {} /\ nextId = 1
+  /\ up = [n \in Nodes |-> TRUE]
+  /\ applied = [n \in Nodes |-> PreludeLen] /\ fsm = [n \in Nodes |-> Data0]
+  /\ snapHeld = [n \in Nodes |-> NoSnap] /\ snapFile = [n \in Nodes |-> NoSnap]
+  /\ base = [n \in Nodes |-> 0] /\ nsnap = [n \in Nodes |-> 0]
+  /\ leader = None /\ crashes = 0
+  /\ cstate = [c \in Clients |-> "idle"] /\ cur = [c \in Clients |-> 0] /\ cwait = [c \in Clients |-> 0]
+  /\ cacheIndex = [c \in Clients |-> 0] /\ cacheData = [c \in Clients |-> EmptyData]
+  /\ acks = {} /\ ackCache = [i \in {} |-> 0]
+  /\ pubs = <<>>
+  /\ hist = <<[a |-> "prelude", cmds |-> Prelude,
+               st |-> [nodes |-> [n \in Nodes |-> Node0], pubs |-> <<>>, loglen |-> PreludeLen]]>>
 
 GNext ==
   /\ Len(hist) < GenLen
